@@ -957,8 +957,9 @@ class _Desugar(ast.NodeTransformer):
                if F and C: return True
            return False
     (and dually for all): the two spellings get one control-flow graph."""
-    def __init__(self):
+    def __init__(self, consts=None):
         self.count = 0
+        self.consts = consts or {}
 
     def _block(self, stmts):
         out = []
@@ -970,7 +971,7 @@ class _Desugar(ast.NodeTransformer):
             else:
                 out.extend(rep)
                 self.count += 1
-        return self._accumulate(self._devirtualise(out))
+        return self._unroll(self._accumulate(self._devirtualise(out)))
 
     def generic_visit(self, node):
         for name in _BLOCKS:
@@ -1086,6 +1087,45 @@ class _Desugar(ast.NodeTransformer):
             i += 1
         return out
 
+    def _unroll(self, stmts):
+        """for x in ('A', 'B', 'C'): body   (a literal tuple / list of
+        constants, or a module-level name bound once to one; at most 6
+        elements; no break / continue / else)
+            ->   x = 'A'; body['A']; x = 'B'; body['B']; ...
+        A loop over a fixed handful of literals is a chain of statements
+        written compactly; the rules read the chain."""
+        out = []
+        for st in stmts:
+            seq = None
+            if isinstance(st, ast.For) and not st.orelse and \
+                    isinstance(st.target, ast.Name):
+                it = st.iter
+                if isinstance(it, ast.Name):
+                    it = self.consts.get(it.id)
+                if isinstance(it, (ast.Tuple, ast.List)) and \
+                        1 <= len(it.elts) <= 6 and all(
+                            isinstance(e, ast.Constant) for e in it.elts):
+                    seq = it.elts
+            if seq is None or any(
+                    isinstance(n, (ast.Break, ast.Continue))
+                    for b in st.body for n in ast.walk(b)) or any(
+                    isinstance(n, ast.Name) and n.id == st.target.id and
+                    isinstance(n.ctx, (ast.Store, ast.Del))
+                    for b in st.body for n in ast.walk(b)):
+                out.append(st)
+                continue
+            import copy as _c
+            var = st.target.id
+            for e in seq:
+                out.append(ast.copy_location(ast.Assign(
+                    targets=[ast.Name(id=var, ctx=ast.Store())],
+                    value=_c.deepcopy(e), lineno=st.lineno), st))
+                for b in st.body:
+                    b2 = _c.deepcopy(b)
+                    out.append(_Subst({var: e}, {}).visit(b2))
+            self.count += 1
+        return out
+
     def _rewrite(self, ret):
         v = ret.value
         neg = False
@@ -1126,7 +1166,26 @@ class _Desugar(ast.NodeTransformer):
 def desugar(trees):
     n = 0
     for t in trees.values():
-        d = _Desugar()
+        # module-level names bound exactly once to a literal tuple / list
+        bound = {}
+        for st in t.body:
+            for x in ast.walk(st) if not isinstance(
+                    st, (ast.FunctionDef, ast.AsyncFunctionDef,
+                         ast.ClassDef)) else ():
+                if isinstance(x, ast.Name) and isinstance(x.ctx, ast.Store):
+                    bound[x.id] = bound.get(x.id, 0) + 1
+        consts = {}
+        for st in t.body:
+            if isinstance(st, ast.Assign) and len(st.targets) == 1 and \
+                    isinstance(st.targets[0], ast.Name) and \
+                    bound.get(st.targets[0].id) == 1 and \
+                    isinstance(st.value, (ast.Tuple, ast.List)):
+                consts[st.targets[0].id] = st.value
+        for x in ast.walk(t):
+            if isinstance(x, (ast.Global, ast.Nonlocal)):
+                for name in x.names:
+                    consts.pop(name, None)
+        d = _Desugar(consts)
         d.visit(t)
         if d.count:
             ast.fix_missing_locations(t)
